@@ -201,7 +201,9 @@ impl FeatureState for TravelLimitState {
                     let start_latest = start_place.time.latest.unwrap_or(f64::MAX);
                     let end_latest = actor.detail.end.as_ref().and_then(|place| place.time.latest).unwrap_or(f64::MAX);
 
-                    start_latest.total_cmp(&departure_time) != Ordering::Less
+                    // NOTE: a job without time window (open end of the shift) gives no latest departure at all
+                    departure_time < f64::MAX
+                        && start_latest.total_cmp(&departure_time) != Ordering::Less
                         && end_latest.total_cmp(&departure_time) != Ordering::Less
                 })
                 .find(|&departure_time| {
